@@ -339,6 +339,11 @@ func c11(r *Report) propMeta {
 	r.UnsignedSubGuarded("shift-counts", "pkg/tickmath.PriceToTick", 2)
 	r.NormalisedBeforeSquaring("mantissa-normalised", "pkg/tickmath.PriceToTick")
 
+	r.Rule("C11.R8", "bytes32 signal ids: refused when longer than 32 BYTES")
+	s32 := "x/feeds/types.StringToBytes32"
+	r.Gate("signal-id-fits-32-bytes", s32, RetOK(), []Cond{{Op: "LSS", A: []string{"const:32"}, B: []string{"^len", "param:str"}, Want: false, Desc: "not (len(str) > 32)"}}, GateOpts{})
+	r.EffectSet("no-cropping-conversion", s32, []string{"common.BytesToHash", "common.HexToHash", "common.BigToHash"}, nil)
+
 	return propMeta{
 		Decided: []string{
 			"R1 all nine 4-byte kind tags equal keccak256(preimage)[:4] (preimages frozen in the rule table, keyed by constant object) and are pairwise distinct; the five route selectors are pairwise distinct",
@@ -347,6 +352,7 @@ func c11(r *Report) propMeta {
 			"R4 RequestSignature creates a signing only for !content.IsInternal(); IsInternal()==false exactly for {Text, Feeds, OracleResult}; every RouterKey has an AddRoute registration",
 			"R5 tickmath: x96 table entries == floor(2^96·(10000/10001)^(2^i)), q96 = 2^96, maxUint192 = 2^192-1, MaxTick/MinTick/Offset consistent",
 			"R7 in PriceToTick every unsigned subtraction (the two shift counts msb-31 / 31-msb) is implied non-wrapping by the comparison that selects its branch, constants included (a wrapped shift count zeroes the mantissa and maps a whole price band to one tick); every path into the squaring loop carries the price shifted by an msb-derived count (no gap in the case split)",
+			"R8 StringToBytes32 (signal ids in the feeds and tunnel payloads) succeeds only for strings of at most 32 bytes - byte length, not characters - and does not go through a cropping conversion: two ids never share an encoding (seed C11-8 counted runes and cropped from the left)",
 		},
 		Undecided: []string{"round-trip decoding of every payload (ABI/protobuf libraries)", "PriceToTick numerics: largest tick with price <= input for every price (bit-level arithmetic) — e.g. an off-by-one in the msb search is NOT detected"},
 		Assume:    []string{"go-ethereum abi packing and gogoproto marshalling are injective for their schemas", "local Keccak-f implementation (unit-tested against known vectors)"},
